@@ -25,6 +25,16 @@ def add_theorems(u):
         asserts = ['d.%s.v@ == d2.%s.v@' % (f, f) for f in 'xyzw'] + ['p.%s.v@ == p2.%s.v@' % (f, f) for f in 'xyzw']
         asserts += ['%s.v@ == %s.v@' % (m3.at('back', i, j), m3.at('m', i, j)) for i in range(3) for j in range(3)]
         u.add(m4.path, thm_fn('thm_embed_commutes_%s' % layout, ['m: Mat3<R>', 'v: Vec3<R>'], [], body, asserts, 'C19'))
+        m2 = mat(2, layout)
+        body = ('    let m3 = Mat3::from(m);\n    let m4 = Mat4::from(m);\n    let via = Mat4::from(m3);\n    let mv = m * v;\n'
+                '    let r3 = m3 * Vec3::new(v.x, v.y, s);\n    let r4 = m4 * Vec4::new(v.x, v.y, s, t);\n'
+                '    let b2 = Mat2::from(m4);\n    let b2b = Mat2::from(m3);\n')
+        asserts = ['r3.x.v@ == mv.x.v@ && r3.y.v@ == mv.y.v@ && r3.z.v@ == s.v@',
+                   'r4.x.v@ == mv.x.v@ && r4.y.v@ == mv.y.v@ && r4.z.v@ == s.v@ && r4.w.v@ == t.v@']
+        asserts += ['%s.v@ == %s.v@' % (m4.at('via', i, j), m4.at('m4', i, j)) for i in range(4) for j in range(4)]
+        asserts += ['%s.v@ == %s.v@ && %s.v@ == %s.v@' % (m2.at('b2', i, j), m2.at('m', i, j), m2.at('b2b', i, j), m2.at('m', i, j))
+                    for i in range(2) for j in range(2)]
+        u.add(m4.path, thm_fn('thm_embed2_commutes_%s' % layout, ['m: Mat2<R>', 'v: Vec2<R>', 's: R', 't: R'], [], body, asserts, 'C19'))
     # inverted_rgb is an involution that keeps alpha
     body = '    let i1 = c.inverted_rgb();\n    let i2 = i1.inverted_rgb();\n    let r3 = c3.inverted_rgb().inverted_rgb();\n'
     asserts = ['i2.%s.v@ == c.%s.v@' % (f, f) for f in 'rgba'] + ['i1.a.v@ == c.a.v@'] + ['r3.%s.v@ == c3.%s.v@' % (f, f) for f in 'rgb']
@@ -42,7 +52,7 @@ def add_theorems(u):
 
 def plan(exp, tier):
     p = driver.Plan('C19')
-    u = vec_unit(exp, 'c19', list(VECS), mats=[m for m in MATS if m.n >= 3])
+    u = vec_unit(exp, 'c19', list(VECS), mats=list(MATS))
     done = veccore.add_conversions(u)
     shufcore.add_shuffle_mask(u)
     shufcore.add_vec4_shuffles(u)
@@ -52,13 +62,20 @@ def plan(exp, tier):
     affcore.add_point_ctors(u)
     swizcore.add_colours(u)
     for ms in MATS:
-        if ms.n >= 3:
-            matcore.add_mat_struct(u, ms)
-            matcore.add_mat_mul(u, ms)
-    matcore.add_mat_size_conversions(u, (3, 4))
+        matcore.add_mat_struct(u, ms)
+        matcore.add_mat_mul(u, ms)
+    matcore.add_mat_size_conversions(u, (2, 3, 4))
     add_theorems(u)
     p.add_unit('c19', u, ['vec', 'mat'])
     p.notes.append('conversion pairs under contract: %s' % ', '.join('%s->%s' % d for d in done))
-    p.not_decided += ['ColorComponent::full for the primitive types (constants T::MAX / 1.0): checked by Kani harnesses in /verif/kani/c19 when present',
+    import kani_driver
+    p.kani = kani_driver.load_specs('c19')
+    for sp in p.kani:
+        if sp.get('bounded'):
+            p.bounded.append('%s: %s' % (sp['harness'], sp['bounded']))
+    p.assumptions += ['Kani/CBMC (ColorComponent::full and the colour helpers at concrete component types): bit-precise machine semantics of the '
+                      'instantiations named in each harness domain']
+    p.not_decided += ['colour helpers at component types i16/i64/u64/f64: ColorComponent::full is proved for them (Kani), the helpers themselves are '
+                      'generic in T (proved once for T := R by Verus) and instantiated by Kani at u8/u16/u32/i8/f32 and the Wrapping forms',
                       'From<[T; N]> array conversions (unsafe): proved by Kani under C18']
     return p
